@@ -648,7 +648,14 @@ class parser(object):
         try:
             ret = self._build_naive(res, default)
         except ValueError as e:
-            six.raise_from(ParserError(str(e) + ": %s", timestr), e)
+            try:
+                msg = str(e)
+            except ValueError:
+                # The message itself cannot be rendered, e.g. it quotes a
+                # month number longer than the interpreter's limit for
+                # converting an int to text
+                msg = "value out of range"
+            six.raise_from(ParserError(msg + ": %s", timestr), e)
 
         if not ignoretz:
             ret = self._build_tzaware(ret, res, tzinfos)
